@@ -27,22 +27,23 @@ def probe(work):
 
     def one(ib):
         i, batch = ib
-        info, _ = cprobe.run_cppcheck_batch(work, "cc%d" % i, lang, ["--platform=" + plat], hdr["preamble_cc"],
+        info, errs = cprobe.run_cppcheck_batch(work, "cc%d" % i, lang, ["--platform=" + plat], hdr["preamble_cc"],
                                             [c["cc"] for c in batch], hdr["epilogue"])
         cl = cprobe.run_clang_batch(work, "w%d" % i, lang, hdr["triple"], hdr["preamble_w"],
                                     [c["w"] for c in batch], hdr["epilogue"])
-        return info, cl
+        return info, cl, errs
 
     results = cprobe.pmap(one, list(enumerate(batches)), workers=int(os.environ.get("C09_PROBE_WORKERS", "3")))
     obs = []
-    for batch, (info, cl) in zip(batches, results):
-        for c, inf, ce in zip(batch, info, cl):
+    for batch, (info, cl, errs) in zip(batches, results):
+        errd = dict(errs)
+        for j, (c, inf, ce) in enumerate(zip(batch, info, cl)):
             inf = inf or {}
             obs.append({"id": c["id"], "expr": c["expr"], "has": bool(inf.get("type")),
                         "tok": inf.get("tok") or "", "type": inf.get("type") or "",
                         "sign": inf.get("sign") or "", "pointer": inf.get("pointer") or 0,
                         "clang": "skip" if not c["w"] else ("fail" if ce else "ok"),
-                        "clang_msg": ce or ""})
+                        "clang_msg": ce or "", "cppcheck_error": errd.get(j, "")})
     vlib.write_ndjson(os.path.join(work, "obs.ndjson"), obs)
 
 
